@@ -4,12 +4,20 @@
  * the smaller operand).  Precondition |u|, |v| <= MAX/2: derived by the verifier -- without it s - v overflows
  * (u = -FLT_MAX, v = 1.9e32) and t is NaN; no caller reaches that (angles and areas are < 2^60). */
 /*@ clause pre.finite src=derived */
-__CPROVER_requires(!isnan(u) && !isnan(v) && fabs(u) <= VERIF_SUM_MAX && fabs(v) <= VERIF_SUM_MAX)
+__CPROVER_requires(isnan(u) || isnan(v) || (fabs(u) <= VERIF_SUM_MAX && fabs(v) <= VERIF_SUM_MAX))
 /*@ clause frame src=property props=C14 */
 __CPROVER_assigns(*t)
 /*@ clause post.rounded_sum src=property props=C16 */
-__CPROVER_ensures(__CPROVER_return_value == u + v)
+__CPROVER_ensures(isnan(u) || isnan(v) || __CPROVER_return_value == u + v)
 /*@ clause post.exact_error src=property props=C16 */
-__CPROVER_ensures(VERIF_SUM_EXACT(__CPROVER_return_value, *t, u, v))
+__CPROVER_ensures(isnan(u) || isnan(v) || VERIF_SUM_EXACT(__CPROVER_return_value, *t, u, v))
 /*@ clause post.zero_sign src=property props=C16 */
-__CPROVER_ensures(__CPROVER_return_value != 0 || (*t == 0 && signbit(*t) == signbit(__CPROVER_return_value)))
+__CPROVER_ensures(isnan(u) || isnan(v) || __CPROVER_return_value != 0 || (*t == 0 && signbit(*t) == signbit(__CPROVER_return_value)))
+/*@ clause post.nan src=property props=C13 */
+__CPROVER_ensures(!(isnan(u) || isnan(v)) ? (!isnan(__CPROVER_return_value) && !isnan(*t)) : (isnan(__CPROVER_return_value) && isnan(*t)))
+/*@ clause post.error_bound src=property props=C16 */
+/* |t| <= ulp(s)/2 <= |s| * 2^-24 (float) resp. 2^-53 (double), and s itself is bounded by the operands */
+__CPROVER_ensures(isnan(u) || isnan(v) || (fabs(*t) <= fabs(__CPROVER_return_value) * VERIF_SUM_EPS && fabs(__CPROVER_return_value) <= 2 * (fabs(u) > fabs(v) ? fabs(u) : fabs(v))))
+/*@ clause post.absorbed src=property props=C16 */
+/* consequence of s + t == u + v exactly and s == fl(u + v): adding the error back does not change s, i.e. |t| <= ulp(s)/2 */
+__CPROVER_ensures(isnan(u) || isnan(v) || __CPROVER_return_value + *t == __CPROVER_return_value)
